@@ -1,0 +1,1 @@
+//! verif-hooks: lang area (read-only accessors; see mod.rs)
